@@ -118,6 +118,12 @@ def get_attr(eng, o, attr, node):
     if isinstance(o, ExtRef):
         if o.dotted == "builtins.int" and attr == "from_bytes":
             return ExtRef("int.from_bytes")
+        if o.dotted == "sys" and attr == "platform":
+            return "linux"  # platform assumption of every check (POSIX branch of the code), stated in the evidence
+        if o.dotted == "os" and attr == "name":
+            return "posix"
+        if o.dotted == "os" and attr == "sep":
+            return "/"
         return ExtRef(o.dotted + "." + attr)
     if isinstance(o, PyObjV):
         return eng.from_python(getattr(o.obj, attr))
@@ -833,6 +839,8 @@ def list_method(eng, o, name, args, kwargs, node):
             eng.set_field(o, "items", items + (x,))
         else:
             if items.elem == "str" and (isinstance(x, str) or (isinstance(x, SSeq) and x.py == "str")):
+                pass
+            elif items.elem == "opq" and isinstance(x, SOpq):
                 pass
             elif isinstance(x, (Ref, tuple)) or x is None or isinstance(x, (bytes, str)):
                 raise EngineError("append of non-scalar to symbolic list")
